@@ -1,16 +1,270 @@
+"""C19: gzip/zlib header writers and readers against the RFC 1952 / RFC 1950 layout.
+
+Families
+  wr_gzip, wr_zlib          isal_write_{gzip,zlib}_header: RFC layout, required-size contract
+  rd_gzip_spec              isal_read_gzip_header on spec-generated headers, one-shot and two chunks
+  rd_gzip_ovf               ... with undersized / NULL extra, name, comment buffers (overflow + resume)
+  rd_gzip_rt                ... on the writer's own output
+  rd_gzip_arb               ... on N arbitrary bytes (documented codes, bounds, exact verdict, contents)
+  rd_zlib_spec / _rt / _arb the same for isal_read_zlib_header
+  zlib_dictid_order         DICTID most-significant-byte first (finding_key zlib-dictid-byte-order)
+  rd_hcrc_field             gz_hdr.hcrc after a chunked read of a header without FHCRC
+  inflate_hdr_chunked       isal_inflate(): header split over two calls == one-shot
+"""
+from concurrent.futures import ThreadPoolExecutor
+
 from vlib.core import Query, Plan
 
 R = "vlib.cbmc:cbmc_query"
 HW = "harness/C19/h_write.c"
+HR = "harness/C19/h_read.c"
+HI = "harness/C19/h_inflate_hdr.c"
 STUBS = ["harness/C19/link_stubs.c"]
-CRC = ["crc/crc_base.c", "crc/crc_base_aliases.c", "crc/crc64_base.c"]
-U_W = ["igzip/igzip.c", "igzip/hufftables_c.c", "igzip/adler32_base.c"] + CRC
-U_RW = ["igzip/igzip.c", "igzip/igzip_inflate.c", "igzip/hufftables_c.c", "igzip/adler32_base.c"] + CRC
+# crc32_gzip_refl is the recording model of harness/C19/crc_hook.h => no crc units
+U_W = ["igzip/igzip.c", "igzip/hufftables_c.c", "igzip/adler32_base.c"]
+U_RW = ["igzip/igzip.c", "igzip/igzip_inflate.c", "igzip/hufftables_c.c", "igzip/adler32_base.c"]
+FLAGS = ["--max-field-sensitivity-array-size", "400"]
+
+K_DICTID = "'zlib-dictid-byte-order'"
+K_HCRC = "'gzip-hcrc-field-after-chunked-read'"
+K_INFL_GZ = "'isal_inflate-gzip-header-state-lost-between-calls'"
+K_INFL_Z = "'isal_inflate-zlib-fdict-lost-between-calls'"
+
+
+def _prepare(ctx):
+    """goto-cc the two slow units (15-17 s each, <x86intrin.h>) concurrently instead of one after
+    the other under the per-file build lock of the query workers."""
+    from vlib import cbmc
+    cd = ctx.as_dict()
+    with ThreadPoolExecutor(max_workers=2) as ex:
+        res = list(ex.map(lambda u: cbmc.gb_for(cd, "%s/%s" % (ctx.repo, u), []), ["igzip/igzip.c", "igzip/igzip_inflate.c"]))
+    return {"prebuilt_units": [bool(r[0]) for r in res]}
+
+
+def gz_hl(e, n, c, h):
+    return 10 + (2 + e if e >= 0 else 0) + (n + 1 if n >= 0 else 0) + (c + 1 if c >= 0 else 0) + 2 * h
+
+
+_TIER = ["quick"]
+
+
+def q(qs, qid, harness, units, hdef, family, unwind=42, core=False, witness=True, key=None, weight=1.0):
+    if _TIER[0] != "quick" and not core and len(qs) % 4:
+        witness = False  # thorough: vacuity twin on every 4th query and on all core queries
+    p = dict(harness=harness, units=units, vunits=STUBS, hdefines=hdef, unwind=unwind, flags=FLAGS, witness=witness)
+    if key:
+        p["finding_key"] = key
+    qs.append(Query(qid, R, p, core=core, family=family, weight=weight))
 
 
 def plan(tier, ctx):
+    quick = tier == "quick"
+    _TIER[0] = tier
     qs = []
-    qs.append(Query("wr_gzip/t", R, dict(harness=HW, units=U_W, vunits=STUBS, hdefines=["W_GZIP", "AVAIL=20", "EXTRA=2", "NAMEB=3", "COMMB=2"], unwind=30, witness=True)))
-    qs.append(Query("wr_zlib/t", R, dict(harness=HW, units=U_W, vunits=STUBS, hdefines=["W_ZLIB", "AVAIL=6"], unwind=30, witness=True)))
-    qs.append(Query("zlib_dictid_order/wr", R, dict(harness=HW, units=U_W, vunits=STUBS, hdefines=["W_ZLIB", "AVAIL=6", "DICTID_ORDER"], unwind=30, witness=True, finding_key="'zlib-dictid-byte-order'")))
-    return Plan("C19", "model_checking", qs)
+
+    # ------------------------------------------------------------------ writers
+    if quick:
+        wcfg = [(-1, -1, -1), (0, -1, -1), (3, -1, -1), (-1, 1, -1), (-1, 4, -1), (-1, -1, 3), (2, 3, 2), (3, 4, 4),
+                (1, 1, 1), (-1, 2, 2)]
+    else:
+        rng = [-1, 0, 1, 2, 3]
+        srng = [-1, 1, 2, 3, 4]
+        wcfg = [(e, n, c) for e in rng for n in srng for c in srng]
+    for (e, n, c) in wcfg:
+        lo = 10 + (2 + e if e >= 0 else 0) + (1 if n >= 0 else 0) + (1 if c >= 0 else 0)
+        hi = 10 + (2 + e if e >= 0 else 0) + max(n, 0) + max(c, 0) + 2
+        if quick:
+            av = sorted({0, lo - 1, lo, lo + 1, (lo + hi) // 2, hi - 1, hi, hi + 1})
+        else:
+            av = sorted({0} | set(range(lo - 1, hi + 2)))
+        for a in av:
+            q(qs, "wr_gzip/e%d_n%d_c%d/avail%d" % (e, n, c, a), HW, U_W,
+              ["W_GZIP", "AVAIL=%d" % a, "EXTRA=%d" % e, "NAMEB=%d" % n, "COMMB=%d" % c], "wr_gzip",
+              core=((e, n, c) in ((2, 3, 2), (-1, -1, -1)) and a in (lo, hi)), weight=2)
+    for a in range(0, 9):
+        q(qs, "wr_zlib/avail%d" % a, HW, U_W, ["W_ZLIB", "AVAIL=%d" % a], "wr_zlib", core=(a in (2, 6)))
+    for a in (6, 8):
+        q(qs, "zlib_dictid_order/wr/avail%d" % a, HW, U_W, ["W_ZLIB", "AVAIL=%d" % a, "DICTID_ORDER"],
+          "zlib_dictid_order", key=K_DICTID)
+
+    # ------------------------------------------------------------------ gzip reader, spec-generated headers
+    if quick:
+        shapes = [(-1, -1, -1, 0), (-1, -1, -1, 1), (2, -1, -1, 0), (-1, 2, -1, 0), (-1, -1, 1, 1), (2, 2, 1, 1),
+                  (3, 3, 2, 1), (0, 0, 0, 0)]
+        full_split = {(2, 2, 1, 1), (-1, -1, -1, 1)}
+    else:
+        shapes = [(e, n, c, h) for e in (-1, 0, 2, 3) for n in (-1, 0, 1, 3) for c in (-1, 0, 2) for h in (0, 1)]
+        full_split = set(shapes)
+    k = 0
+    for sh in shapes:
+        e, n, c, h = sh
+        hl = gz_hl(e, n, c, h)
+        base = ["R_GZ_SPEC", "EXTRA=%d" % e, "NAMEL=%d" % n, "COMML=%d" % c, "HCRC=%d" % h]
+        tag = "e%d_n%d_c%d_h%d" % sh
+        for text in (0, 1):
+            for tail in (0, 1):
+                if quick and text != tail:
+                    continue
+                q(qs, "rd_gzip_spec/%s/oneshot_t%d_tail%d" % (tag, text, tail), HR, U_RW,
+                  base + ["TEXT=%d" % text, "TAIL=%d" % tail], "rd_gzip_spec", core=(sh == (2, 2, 1, 1)))
+        # FTEXT symbolic (one query per shape; 14 s measured for the largest)
+        if sh in ((2, 2, 1, 1), (-1, -1, -1, 0)) or not quick:
+            q(qs, "rd_gzip_spec/%s/oneshot_textsym" % tag, HR, U_RW, base, "rd_gzip_spec", weight=8)
+        if sh in full_split:
+            splits = list(range(0, hl))
+        else:
+            splits = sorted({0, 1, 9, 10, 11, hl - 2, hl - 1} & set(range(0, hl)))
+        for s in splits:
+            k += 1
+            q(qs, "rd_gzip_spec/%s/split%d" % (tag, s), HR, U_RW, base + ["TEXT=%d" % (k & 1), "SPLIT=%d" % s],
+              "rd_gzip_spec", core=(sh == (2, 2, 1, 1) and s in (5, 13, 19)))
+
+    # ------------------------------------------------------------------ overflow + resume, NULL buffers
+    if quick:
+        ovf = [((3, 3, 2, 1), caps, sp) for caps in
+               [(1, -2, -2), (-2, 1, -2), (-2, 3, -2), (-2, -2, 1), (2, 2, 2), (1, 1, 1), (-1, -1, -1), (-1, 2, -2)]
+               for sp in (-1, 12, 16, 19)]
+        ovf += [((2, 2, 1, 0), (1, 1, 1), sp) for sp in (-1, 13, 15)]
+    else:
+        ovf = []
+        for sh in ((3, 3, 2, 1), (2, 2, 1, 0)):
+            e, n, c, h = sh
+            for ce in [-2, -1] + list(range(1, e)):
+                for cn in [-2, -1] + list(range(1, n + 1)):
+                    for cc in [-2, -1] + list(range(1, c + 1)):
+                        if (ce, cn, cc) == (-2, -2, -2):
+                            continue
+                        for sp in [-1] + list(range(10, gz_hl(*sh))):
+                            ovf.append((sh, (ce, cn, cc), sp))
+    for sh, caps, sp in ovf:
+        e, n, c, h = sh
+        k += 1
+        hd = ["R_GZ_SPEC", "EXTRA=%d" % e, "NAMEL=%d" % n, "COMML=%d" % c, "HCRC=%d" % h, "TEXT=%d" % (k & 1),
+              "EXTRAB=%d" % caps[0], "NAMEB=%d" % caps[1], "COMMB=%d" % caps[2]]
+        if sp >= 0:
+            hd.append("SPLIT=%d" % sp)
+        q(qs, "rd_gzip_ovf/e%d_n%d_c%d_h%d/cap%d_%d_%d/%s" % (sh + caps + ("split%d" % sp if sp >= 0 else "oneshot",)),
+          HR, U_RW, hd, "rd_gzip_ovf", core=(caps == (1, 1, 1) and sp == -1))
+
+    # ------------------------------------------------------------------ writer -> reader
+    rt_shapes = [(-1, -1, -1, 0), (2, 2, 1, 1), (3, 3, 2, 1)] if quick else shapes
+    for sh in rt_shapes:
+        e, n, c, h = sh
+        hl = gz_hl(*sh)
+        base = ["R_GZ_RT", "EXTRA=%d" % e, "NAMEL=%d" % n, "COMML=%d" % c, "HCRC=%d" % h]
+        for sp in [-1] + sorted(set([5, hl - 1] if quick else [3, 10, hl // 2 + 5, hl - 1])):
+            if sp >= hl:
+                continue
+            k += 1
+            q(qs, "rd_gzip_rt/e%d_n%d_c%d_h%d/%s" % (sh + ("split%d" % sp if sp >= 0 else "oneshot",)), HR, U_RW,
+              base + ["TEXT=%d" % (k & 1)] + (["SPLIT=%d" % sp] if sp >= 0 else []), "rd_gzip_rt",
+              core=(sh == (2, 2, 1, 1) and sp == -1))
+
+    # ------------------------------------------------------------------ arbitrary bytes
+    for nn in ([0, 1, 9, 10, 11, 12, 13, 14, 16] if quick else list(range(0, 17))):
+        q(qs, "rd_gzip_arb/nobuf/n%d" % nn, HR, U_RW, ["R_GZ_ARB", "N=%d" % nn, "EXTRAB=-1", "NAMEB=-1", "COMMB=-1"],
+          "rd_gzip_arb", core=(nn in (10, 12)), weight=10 if nn >= 12 else 1)
+    for caps in ([(2, 2, 2), (1, 3, 1)] if quick else [(2, 2, 2), (1, 3, 1), (4, 1, 2), (1, 1, 4), (3, 4, 3)]):
+        for nn in ([12, 14, 16] if quick else list(range(10, 17))):
+            q(qs, "rd_gzip_arb/cap%d_%d_%d/n%d" % (caps + (nn,)), HR, U_RW,
+              ["R_GZ_ARB", "N=%d" % nn, "EXTRAB=%d" % caps[0], "NAMEB=%d" % caps[1], "COMMB=%d" % caps[2]],
+              "rd_gzip_arb", weight=6)
+
+    # ------------------------------------------------------------------ gz_hdr.hcrc must not depend on chunking
+    for sh, sps in (((-1, -1, -1, 0), (-1, 1, 5, 9)), ((-1, 2, -1, 0), (-1, 4, 11))):
+        e, n, c, h = sh
+        for sp in sps:
+            q(qs, "rd_hcrc_field/e%d_n%d_c%d_h%d/%s" % (sh + ("split%d" % sp if sp >= 0 else "oneshot",)), HR, U_RW,
+              ["R_GZ_SPEC", "HCRC_FIELD", "EXTRA=%d" % e, "NAMEL=%d" % n, "COMML=%d" % c, "HCRC=0", "TEXT=0"] +
+              (["SPLIT=%d" % sp] if sp >= 0 else []), "rd_hcrc_field", key=K_HCRC)
+
+    # ------------------------------------------------------------------ zlib reader
+    for fd in (0, 1):
+        zhl = 6 if fd else 2
+        for tail in (0, 1):
+            q(qs, "rd_zlib_spec/fdict%d/oneshot_tail%d" % (fd, tail), HR, U_RW, ["R_Z_SPEC", "FDICT=%d" % fd, "TAIL=%d" % tail],
+              "rd_zlib_spec", unwind=12, core=True)
+            q(qs, "rd_zlib_rt/fdict%d/oneshot_tail%d" % (fd, tail), HR, U_RW, ["R_Z_RT", "FDICT=%d" % fd, "TAIL=%d" % tail],
+              "rd_zlib_rt", unwind=12, core=(tail == 1))
+        for (zi, zl) in ([(7, 2), (0, 0)] if quick else [(7, 2), (0, 0), (15, 3), (7, 0), (3, 1)]):
+            for sp in range(0, zhl):
+                for mode, fam in (("R_Z_SPEC", "rd_zlib_spec"), ("R_Z_RT", "rd_zlib_rt")):
+                    q(qs, "%s/fdict%d/i%d_l%d/split%d" % (fam, fd, zi, zl, sp), HR, U_RW,
+                      [mode, "FDICT=%d" % fd, "SPLIT=%d" % sp, "ZINFO=%d" % zi, "ZLEVEL=%d" % zl], fam, unwind=12,
+                      core=(fd == 1 and sp == 3 and zi == 7))
+    for nn in range(0, 9):
+        q(qs, "rd_zlib_arb/n%d" % nn, HR, U_RW, ["R_Z_ARB", "N=%d" % nn], "rd_zlib_arb", unwind=12, core=(nn in (2, 6)))
+    q(qs, "zlib_dictid_order/rd/oneshot", HR, U_RW, ["R_Z_SPEC", "FDICT=1", "DICTID_ORDER"], "zlib_dictid_order", unwind=12,
+      key=K_DICTID)
+    q(qs, "zlib_dictid_order/rd/split3", HR, U_RW, ["R_Z_SPEC", "FDICT=1", "DICTID_ORDER", "SPLIT=3", "ZINFO=7", "ZLEVEL=2"],
+      "zlib_dictid_order", unwind=12, key=K_DICTID)
+
+    # ------------------------------------------------------------------ isal_inflate(): header over two calls
+    ish = [(-1, -1, -1), (-1, 2, -1), (-1, 2, 2), (2, 2, -1)] if quick else \
+          [(-1, -1, -1), (-1, 2, -1), (-1, 2, 2), (2, 2, -1), (2, -1, 1), (3, 1, 1), (0, 0, 0)]
+    for sh in ish:
+        e, n, c = sh
+        hl = gz_hl(e, n, c, 0)
+        sps = range(1, hl) if (not quick or sh == (-1, 2, 2)) else sorted({4, 10, 11, hl - 1} & set(range(1, hl)))
+        for sp in sps:
+            q(qs, "inflate_hdr_chunked/gzip_e%d_n%d_c%d/split%d" % (sh + (sp,)), HI, U_RW,
+              ["I_GZIP", "EXTRA=%d" % e, "NAMEL=%d" % n, "COMML=%d" % c, "SPLIT=%d" % sp], "inflate_hdr_chunked",
+              key=K_INFL_GZ, weight=3)
+    for fd in (0, 1):
+        for sp in range(1, 6 if fd else 2):
+            q(qs, "inflate_hdr_chunked/zlib_fdict%d/split%d" % (fd, sp), HI, U_RW, ["I_ZLIB", "FDICT=%d" % fd, "SPLIT=%d" % sp],
+              "inflate_hdr_chunked", key=K_INFL_Z, weight=3)
+
+    return Plan(
+        "C19", "model_checking", qs,
+        functions_encoded=["isal_write_gzip_header", "isal_write_zlib_header", "isal_gzip_header_init", "isal_zlib_header_init",
+                           "isal_read_gzip_header", "isal_read_zlib_header", "fixed_size_read", "buffer_header_copy",
+                           "string_header_copy", "isal_inflate_init", "unaligned.h load/store helpers",
+                           "isal_inflate (wrapper-parsing prologue + read_header_stateful/read_header on empty input; family inflate_hdr_chunked only)"],
+        bounds={
+            "writers": "extra NULL or xlen 0..3, name/comment NULL or buffer of 1..4 bytes with symbolic contents incl. NUL "
+                       "position; all scalar fields symbolic 32-bit; avail_out concrete: 0 and every value from (min required-1) "
+                       "to (max required+1) [quick: 7 values per shape, 10 of 125 shapes]; zlib avail_out 0..8",
+            "readers_spec": "header shapes extra{absent,0,2,3} x name{absent,0,1,3 chars} x comment{absent,0,2} x FHCRC "
+                            "[quick 8 shapes]; two chunks at every split point 0..len-1 [quick: every point for 2 shapes, "
+                            "7 points otherwise]; MTIME/XFL/OS/extra bytes/stored CRC16/tail symbolic; FLG, XLEN and the "
+                            "characters of name/comment concrete (FTEXT both values; symbolic in the *_textsym queries)",
+            "overflow": "capacities 1..needed-1 or NULL or exact for each of extra/name/comment, with one-shot and split "
+                        "delivery [quick: 8 capacity triples x 4 deliveries]; capacity 0 not swept",
+            "arbitrary_bytes": "gzip N=0..16, zlib N=0..8, every byte symbolic; reader buffers NULL or small (1..4)",
+            "zlib": "CINFO 0..15, FLEVEL 0..3 symbolic (one-shot); concrete (info,level) pairs for the split queries; "
+                    "DICTID, tail symbolic; splits 0..5",
+            "inflate_hdr_chunked": "header only (no deflate data), FHCRC absent, split at every point [quick: subset]",
+        },
+        stubs=["crc32_gzip_refl := recording model returning an ARBITRARY value per call (seed for len 0) - harness/C19/crc_hook.h; "
+               "obligations are on the recorded (seed, range, bytes) and on how the returned value is stored/compared, so they "
+               "hold for any CRC function; chained reader calls rely on CRC composition crc(crc(s,a),b)=crc(s,a||b) (C04)",
+               "strnlen: POSIX loop model (CBMC has none)",
+               "memcpy: typed copy for n in {2,4,8}, byte loop otherwise (CBMC's built-in turns a symbolic-size copy into a "
+               "byte_update of the whole 90 KB inflate_state: 24 GB OOM); overlap check of the built-in lost",
+               "isal_deflate_body/finish/hash/icf*, encode_deflate_icf, create_hufftables_icf, "
+               "decode_huffman_code_block_stateless: assert-false link stubs (unreachable from the encoded functions; reaching "
+               "one fails the query)",
+               "isal_adler32 := adler32_base (as igzip_base_aliases.c)"],
+        assumptions=["writer: name/comment, when non-NULL, contain a NUL inside name_buf_len/comment_buf_len bytes "
+                     "(property text: NUL-terminated name and comment); without it isal_write_gzip_header emits an "
+                     "unterminated string - not counted as a violation",
+                     "writer: extra_len <= 65535 (concrete 0..3 here); zlib info <= 15, level <= 3 (field widths)",
+                     "XFL/OS are compared modulo 256 (32-bit struct fields, 8-bit header fields)",
+                     "reader: inflate_state from isal_inflate_init, isal_gzip_header from isal_gzip_header_init plus buffers; "
+                     "on overflow the caller re-calls with a larger buffer that preserves the bytes already stored (realloc)",
+                     "reserved FLG bits 5..7 are ignored by the oracle (RFC 1952 asks a compliant decompressor to reject "
+                     "them; ISA-L does not; not part of property C19)"],
+        outside=["extra fields > 3 bytes written / > 16 bytes read, names/comments > 4 characters",
+                 "three or more chunks; split delivery combined with symbolic FLG/XLEN/string characters",
+                 "the CRC-32 value itself (C04); asm crc32_gzip_refl variants",
+                 "isal_zstream fields other than next_in/avail_in/total_in/next_out/avail_out/total_out in the "
+                 "'stream untouched' check",
+                 "isal_inflate beyond the wrapper prologue (C02/C07)"],
+        trusted_base=["cbmc 6.11 C front end + SAT back end", "spec/rfc1950_1952.h (transcribed from RFC 1952 2.3, RFC 1950 2.2)"],
+        prepare=_prepare,
+        extra={"exhaustive": False,
+               "finding_keys": {"zlib-dictid-byte-order": "families zlib_dictid_order",
+                                "gzip-hcrc-field-after-chunked-read": "family rd_hcrc_field",
+                                "isal_inflate-gzip-header-state-lost-between-calls": "family inflate_hdr_chunked (gzip)",
+                                "isal_inflate-zlib-fdict-lost-between-calls": "family inflate_hdr_chunked (zlib)"}})
